@@ -187,7 +187,11 @@ class ABI:
 
         for read in constraints.reads_registers:
             reg = self.get_register(read)
-            available_scratch_registers.remove(reg)
+            # A register that is only read merely must not be handed out as
+            # scratch; it need not be a scratch candidate in the first place
+            # (or may already be gone because it is clobbered as well).
+            if reg in available_scratch_registers:
+                available_scratch_registers.remove(reg)
 
         if constraints.scratch_registers > len(available_scratch_registers):
             raise ValueError("unable to allocate enough scratch registers")
